@@ -188,47 +188,24 @@ theorem isIdent_no_colon {n : Str} (h : isIdent n = true) : 58 ∉ n := by
   rw [isIdentChar_58] at this
   cases this
 
-theorem htmlEscape_plain : ∀ {v : Str}, plainText v = true → htmlEscape v = v
+theorem unquote_pyStrBody : ∀ {v : Str}, plainText v = true → unquote (pyStrBody v) = .ok v
   | [], _ => rfl
   | c :: cs, h => by
       simp only [plainText, List.all_cons, Bool.and_eq_true] at h
+      have ih := unquote_pyStrBody (v := cs) (by simpa [plainText] using h.2)
       have hc := h.1
-      have ih := htmlEscape_plain (v := cs) (by simpa [plainText] using h.2)
       simp only [plainChar, Bool.not_eq_true', Bool.or_eq_false_iff, beq_eq_false_iff_ne, ne_eq] at hc
-      simp only [htmlEscape, ih]
-      obtain ⟨⟨⟨⟨⟨⟨⟨⟨_, _⟩, _⟩, h34⟩, h38⟩, _⟩, h60⟩, h62⟩, _⟩ := hc
-      simp [h34, h38, h60, h62]
-
-theorem quotedOk_plain {v : Str} (h : plainText v = true) : quotedOk v = true := by
-  simp only [plainText, quotedOk, List.all_eq_true] at *
-  intro c hc
-  have := h c hc
-  simp only [plainChar, Bool.not_eq_true', Bool.or_eq_false_iff, beq_eq_false_iff_ne, ne_eq] at this
-  simp only [Bool.not_eq_true', Bool.or_eq_false_iff, beq_eq_false_iff_ne, ne_eq]
-  obtain ⟨⟨⟨⟨⟨⟨⟨⟨h0, h10⟩, h13⟩, _⟩, _⟩, h39⟩, _⟩, _⟩, h92⟩ := this
-  exact ⟨⟨⟨⟨h0, h10⟩, h13⟩, h39⟩, h92⟩
-
-theorem isDigit_plain {c : Nat} (h : isDigit c = true) : plainChar c = true := by
-  simp only [isDigit, Bool.and_eq_true, decide_eq_true_eq] at h
-  simp only [plainChar, Bool.not_eq_true', Bool.or_eq_false_iff, beq_eq_false_iff_ne, ne_eq]
-  omega
+      by_cases h92 : c = 92
+      · subst h92; simp [pyStrBody, unquote, ih]
+      · by_cases h39 : c = 39
+        · subst h39; simp [pyStrBody, unquote, ih]
+        · have : pyStrBody (c :: cs) = c :: pyStrBody cs := by simp [pyStrBody, h92, h39]
+          rw [this, unquote.eq_def]
+          simp [h92, h39, hc, ih]
 
 theorem isNatLit_digits {s : Str} (h : isNatLit s = true) : s.all isDigit = true := by
   simp only [isNatLit, Bool.and_eq_true] at h
   exact h.1.2
-
-theorem isNatLit_plain {s : Str} (h : isNatLit s = true) : plainText s = true := by
-  have := isNatLit_digits h
-  simp only [plainText, List.all_eq_true] at *
-  exact fun c hc => isDigit_plain (this c hc)
-
-theorem isIntLit_plain {s : Str} (h : isIntLit s = true) : plainText s = true := by
-  unfold isIntLit at h
-  split at h
-  · have h2 := isNatLit_plain h
-    simp only [plainText, List.all_cons] at *
-    rw [h2]; decide
-  · exact isNatLit_plain h
 
 theorem isInfix_append : ∀ (p a b : Str), isInfix p a = true → isInfix p (a ++ b) = true
   | p, [], b, h => by
@@ -634,7 +611,7 @@ inductive Shape (s : Spec) (seen : List Str) (f : FieldEl) : Option (PrimKind ×
       Shape s seen f (some (p.kind, p.isChar))
   | fixed (iso : Bool) (k len : Str) (n : Nat) (ht : f.ty = some (fixedId iso)) (hsc : splitColon (fixedId iso) = (k, none))
       (hnp : docPrim (fixedId iso) = none) (hdf : docFixed (fixedId iso) = some iso)
-      (hl : f.length = some len) (hn : parseNat? len = some n) (ha : f.array = none) :
+      (hl : f.length = some len) (hn : parseNat? len = some n) :
       Shape s seen f (some (.text, false))
   | enum (nm : Str) (e : EnumEl) (p : Prim) (ht : f.ty = some (kwEnum ++ nm))
       (hsc : splitColon (kwEnum ++ nm) = (cp "enum", some nm)) (hid : isIdent nm = true)
@@ -718,8 +695,8 @@ theorem wfType_shape {s : Spec} {seen : List Str} {f : FieldEl} {dom : Option (P
             simp only at h
             split at h
             · rename_i hc
-              simp only [Bool.and_eq_true, Option.isSome_iff_exists] at hc
-              obtain ⟨⟨n, hn⟩, ha⟩ := hc
+              simp only [Option.isSome_iff_exists] at hc
+              obtain ⟨n, hn⟩ := hc
               simp only [Option.some.injEq] at h
               subst h
               have := docFixed_eq hf
@@ -729,7 +706,7 @@ theorem wfType_shape {s : Spec} {seen : List Str} {f : FieldEl} {dom : Option (P
               | some len =>
                 rw [hl] at hn
                 simp only [Option.bind_some] at hn
-                exact Shape.fixed iso k len n ht hsc hp hf hl hn (by simpa using ha)
+                exact Shape.fixed iso k len n ht hsc hp hf hl hn
             · cases h
 
 /-! ### constants -/
@@ -759,19 +736,33 @@ theorem intLit_not_bool {v : Str} (h : isIntLit v = true) : (v == cp "True") = f
     rw [cp_true, cp_false]
     constructor <;> simp [hne.1, hne.2]
 
+theorem docValue_ok {k : PrimKind} {ch : Bool} {v : Str} (h : wfConst k ch v = true) : ∃ d, docValue k v = .ok d := by
+  cases k with
+  | bool => simp [wfConst] at h
+  | text => exact ⟨_, rfl⟩
+  | int =>
+    simp only [wfConst] at h
+    have : ∃ i, parseInt? v = some i := by
+      unfold isIntLit at h
+      unfold parseInt?
+      split at h
+      · simp [parseNat?, h]
+      · simp [parseNat?, h]
+    obtain ⟨i, hi⟩ := this
+    exact ⟨.int i, by simp [docValue, hi]⟩
+
 theorem lit_const {k : PrimKind} {ch : Bool} {v : Str} (h : wfConst k ch v = true) :
-    (⟨k == .text, htmlEscape v⟩ : Lit).syntaxOk = true ∧ (⟨k == .text, htmlEscape v⟩ : Lit).eval = docValue k v := by
+    (⟨k == .text, if (k == .text) = true then pyStrBody v else v⟩ : Lit).syntaxOk = true
+    ∧ (⟨k == .text, if (k == .text) = true then pyStrBody v else v⟩ : Lit).eval = docValue k v := by
   cases k with
   | bool => simp [wfConst] at h
   | text =>
     simp only [wfConst, Bool.and_eq_true] at h
-    have hp := h.1
-    rw [htmlEscape_plain hp]
-    have hq := quotedOk_plain hp
-    simp [Lit.syntaxOk, Lit.eval, hq, docValue]
+    have hu := unquote_pyStrBody h.1
+    have htt : (PrimKind.text == PrimKind.text) = true := by decide
+    simp [htt, Lit.syntaxOk, Lit.eval, quotedOk, hu, docValue, Except.isOk, Except.toBool]
   | int =>
     simp only [wfConst] at h
-    rw [htmlEscape_plain (isIntLit_plain h)]
     obtain ⟨h1, h2⟩ := intLit_not_bool h
     have hq : (PrimKind.int == PrimKind.text) = false := by decide
     simp only [hq, Lit.syntaxOk, Lit.eval, rawOk, Bool.false_eq_true, if_false, h1, h2, Bool.false_or, docValue, parseInt?]
@@ -805,81 +796,6 @@ theorem evalTy_count {impl : Impl} {enums recs : List Str} {env : Env} (h : EnvO
 theorem wfFieldName_ident {n : Str} (h : wfFieldName n = true) : isIdent n = true := by
   simp only [wfFieldName, Bool.and_eq_true] at h
   exact h.1.1
-
-theorem agree_nonfixed {impl : Impl} {s : Spec} {enums seen : List Str} {env : Env} {f : FieldEl} {n : Str}
-    {dom : Option (PrimKind × Bool)} {tn hint : Str} {el : Ty}
-    (henv : EnvOk impl enums seen env)
-    (hn : f.name = some n) (hname : wfFieldName n = true) (href : f.ref = none)
-    (harr : (f.array != some (cp "double")) = true) (hdflt : wfDefault dom f = true)
-    (htysome : f.ty.isSome = true)
-    (hth : typeAndHint (specDefinitions s) (toDef f) = .ok (tn, hint))
-    (hnf : (f.ty == some (fixedId false) || f.ty == some (fixedId true)) = false)
-    (hev : evalTy env (.cls tn) = .ok el)
-    (hel : (∃ p, el = .prim p) ∨ (∃ r, el = .record r))
-    (hidT : isIdent tn = true) (hidH : isIdent hint = true) (hhint : ∃ b, env.get hint = .ok b)
-    (hdoc : docElemTy s f = .ok (el, dom.map (·.1)))
-    (hq : ∀ k ch, dom = some (k, ch) → quoteOf (.cls tn) = (k == .text)) : FieldAgree s env f := by
-  obtain ⟨hb, hhint⟩ := hhint
-  have hcond : ((toDef f).ty.isNone && (toDef f).ref.isNone || (toDef f).ty.isSome && (toDef f).ref.isSome) = false := by
-    simp [toDef, href, htysome]
-  have hidn := wfFieldName_ident hname
-  have hcnt := evalTy_count henv f
-  have hcntId : isIdent (countCls f.endian) = true := by
-    unfold countCls; split <;> exact prim_cls_ident _
-  cases ha : f.array with
-  | none =>
-    have htyd : fieldTyExpr (toDef f) tn = (.cls tn, 0) := by
-      simp only [fieldTyExpr, toDef, ha, hnf, Bool.false_eq_true, if_false]
-    cases hd : f.dflt with
-    | none =>
-      refine ⟨_, ⟨n, el, none⟩, by simp only [genField, hcond, Bool.false_eq_true, if_false, hth, htyd]; rfl, ?_, ?_, ?_, ?_⟩
-      · simp [FieldDecl.syntaxOk, toDef, hn, orEmpty, hidn, TyExpr.syntaxOk, hidT, hidH, hd]
-      · simp [evalField, hev, toDef, hn, orEmpty, hd]
-      · simp [evalHint, hhint]
-      · simp [denoteResolved, hdoc, hn, ha, hd]
-    | some v =>
-      simp only [wfDefault, hd, ha, Option.isNone_none, Bool.true_and] at hdflt
-      cases hdom : dom with
-      | none => rw [hdom] at hdflt; simp at hdflt
-      | some kc =>
-        obtain ⟨k, ch⟩ := kc
-        rw [hdom] at hdflt
-        simp only at hdflt
-        obtain ⟨hsyn, hevl⟩ := lit_const hdflt
-        have hqq := hq k ch hdom
-        cases hdv : docValue k v with
-        | error e =>
-          rw [hdv] at hevl
-          cases k <;> simp [wfConst, docValue] at hdflt hdv
-          · unfold isIntLit at hdflt
-            unfold parseInt? at hdv
-            split at hdv <;> split at hdflt <;> simp_all [parseNat?]
-        | ok d =>
-          rw [hdv] at hevl
-          refine ⟨_, ⟨n, el, some d⟩, by simp only [genField, hcond, Bool.false_eq_true, if_false, hth, htyd]; rfl, ?_, ?_, ?_, ?_⟩
-          · simp [FieldDecl.syntaxOk, toDef, hn, orEmpty, hidn, TyExpr.syntaxOk, hidT, hidH, hd, hqq, hsyn]
-          · simp [evalField, hev, toDef, hn, orEmpty, hd, hqq, hevl]
-          · simp [evalHint, hhint]
-          · rw [hdom] at hdoc
-            simp [denoteResolved, hdoc, hn, ha, hd, hdv]
-  | some a =>
-    have hne : (a == cp "double") = false := by
-      rw [ha] at harr
-      simpa using harr
-    have htyd : fieldTyExpr (toDef f) tn = (.array (.cls tn) (.cls (countCls f.endian)), 1) := by
-      simp only [fieldTyExpr, toDef, ha, hnf, hne, Bool.false_eq_true, if_false]
-    have hd : f.dflt = none := by
-      cases hd : f.dflt with
-      | none => rfl
-      | some v => simp [wfDefault, hd, ha] at hdflt
-    have hevA : evalTy env (.array (.cls tn) (.cls (countCls f.endian))) = .ok (.array el (docCount f)) := by
-      rw [evalTy.eq_2, hev, hcnt]
-      rcases hel with ⟨p, rfl⟩ | ⟨r, rfl⟩ <;> rfl
-    refine ⟨_, ⟨n, .array el (docCount f), none⟩, by simp only [genField, hcond, Bool.false_eq_true, if_false, hth, htyd]; rfl, ?_, ?_, ?_, ?_⟩
-    · simp [FieldDecl.syntaxOk, toDef, hn, orEmpty, hidn, TyExpr.syntaxOk, hidT, hidH, hd, hcntId]
-    · simp [evalField, hevA, toDef, hn, orEmpty, hd]
-    · simp [evalHint, hhint, henv.list]
-    · simp [denoteResolved, hdoc, hn, ha, hd]
 
 /-! ### the four shapes -/
 theorem fixed_is_fixed (iso : Bool) : (some (fixedId iso) == some (fixedId false) || some (fixedId iso) == some (fixedId true)) = true := by
@@ -916,64 +832,81 @@ theorem findEnum?_mem {s : Spec} {nm : Str} {e : EnumEl} (h : findEnum? s nm = s
   have : e.name = nm := by simpa using h1
   exact List.mem_map.mpr ⟨e, h2, this⟩
 
-theorem agree_fixed {impl : Impl} {s : Spec} {enums seen : List Str} {env : Env} {f : FieldEl} {n : Str}
+/-- the pipelines agree on a field whose element type expression `ex` evaluates to `el` -/
+theorem agree_elem {impl : Impl} {s : Spec} {enums seen : List Str} {env : Env} {f : FieldEl} {n : Str}
+    {dom : Option (PrimKind × Bool)} {tn hint : Str} {ex : TyExpr} {el : Ty}
     (henv : EnvOk impl enums seen env)
     (hn : f.name = some n) (hname : wfFieldName n = true) (href : f.ref = none)
-    (hdflt : wfDefault (some (.text, false)) f = true)
-    {iso : Bool} {k len : Str} {m : Nat} (ht : f.ty = some (fixedId iso)) (hsc : splitColon (fixedId iso) = (k, none))
-    (hnp : docPrim (fixedId iso) = none) (hdf : docFixed (fixedId iso) = some iso)
-    (hl : f.length = some len) (hm : parseNat? len = some m) (ha : f.array = none) : FieldAgree s env f := by
+    (harr : (f.array != some (cp "double")) = true) (hdflt : wfDefault dom f = true)
+    (htysome : f.ty.isSome = true)
+    (hth : typeAndHint (specDefinitions s) (toDef f) = .ok (tn, hint))
+    (hex : elemExpr (toDef f) tn = ex)
+    (hev : evalTy env ex = .ok el) (hel : el ≠ .other)
+    (hsynT : ex.syntaxOk = true) (hidH : isIdent hint = true) (hhint : ∃ b, env.get hint = .ok b)
+    (hdoc : docElemTy s f = .ok (el, dom.map (·.1)))
+    (hq : ∀ k ch, dom = some (k, ch) → quoteOf ex = (k == .text)) : FieldAgree s env f := by
+  obtain ⟨hb, hhint⟩ := hhint
   have hcond : ((toDef f).ty.isNone && (toDef f).ref.isNone || (toDef f).ty.isSome && (toDef f).ref.isSome) = false := by
-    simp [toDef, href, ht]
+    simp [toDef, href, htysome]
   have hidn := wfFieldName_ident hname
-  have hlit : isNatLit len = true ∧ digitsVal len = m := by
-    unfold parseNat? at hm
-    split at hm
-    · rename_i h; exact ⟨h, by simpa using hm⟩
-    · cases hm
-  have hlenNone : (len == cp "None") = false := by
-    rw [beq_eq_false_iff_ne]
-    intro e
-    rw [e, none_not_lit] at hlit
-    exact absurd hlit.1 (by simp)
-  have hth : typeAndHint (specDefinitions s) (toDef f) = .ok (fixedCls iso, cp "str") := by
-    simp only [typeAndHint, toDef, href, ht, fixed_not_enum, fixed_not_record, Bool.false_eq_true, if_false, typeDef_fixed]
-    rfl
-  have htyd : fieldTyExpr (toDef f) (fixedCls iso) = (.callLen (.cls (fixedCls iso)) len, 0) := by
-    simp only [fieldTyExpr, toDef, ha, ht, fixed_is_fixed, if_true, hl, orNone]
-  have hq : quoteOf (.callLen (.cls (fixedCls iso)) len) = true := by
-    unfold quoteOf
-    have : isInfix (cp "String") (TyExpr.callLen (.cls (fixedCls iso)) len).render = true := by
-      simp only [TyExpr.render]
-      exact isInfix_append _ _ _ (isInfix_append _ _ _ (isInfix_append _ _ _ (fixedCls_string iso)))
-    rw [this, Bool.or_true]
-  have hev : evalTy env (.callLen (.cls (fixedCls iso)) len) = .ok (.fixed iso (some m)) := by
-    have h1 : evalTy env (.cls (fixedCls iso)) = .ok (.fixedCls iso) := by simp [evalTy, henv.fixed iso]
-    have h2 : evalLen len = .ok (some m) := by simp [evalLen, hlenNone, hlit.1, hlit.2]
-    rw [evalTy.eq_3, h1, h2]
-    rfl
-  have hdoc : docElemTy s f = .ok (.fixed iso (some m), some .text) := by
-    simp [docElemTy, ht, hsc, hnp, hdf, hl, hm]
-  have hhint : env.get (cp "str") = .ok .pyType := henv.hint .text
-  cases hd : f.dflt with
+  have hcnt := evalTy_count henv f
+  have hcntId : isIdent (countCls f.endian) = true := by
+    unfold countCls; split <;> exact prim_cls_ident _
+  cases ha : f.array with
   | none =>
-    refine ⟨_, ⟨n, .fixed iso (some m), none⟩, by simp only [genField, hcond, Bool.false_eq_true, if_false, hth, htyd]; rfl, ?_, ?_, ?_, ?_⟩
-    · simp [FieldDecl.syntaxOk, toDef, hn, orEmpty, hidn, TyExpr.syntaxOk, fixedCls_ident, lenOk, hlit.1, hd]; decide
-    · simp [evalField, hev, toDef, hn, orEmpty, hd]
-    · simp [evalHint, hhint]
+    have htyd : fieldTyExpr (toDef f) tn = (ex, 0) := by
+      have : (toDef f).array = none := ha
+      simp only [fieldTyExpr, this, hex]
+    cases hd : f.dflt with
+    | none =>
+      refine ⟨_, ⟨n, el, none⟩, by simp only [genField, hcond, Bool.false_eq_true, if_false, hth, htyd]; rfl, ?_, ?_, ?_, ?_⟩
+      · simp [FieldDecl.syntaxOk, toDef, hn, orEmpty, hidn, hsynT, hidH, hd]
+      · simp [evalField, hev, toDef, hn, orEmpty, hd]
+      · simp [evalHint, hhint]
+      · simp [denoteResolved, hdoc, hn, ha, hd]
+    | some v =>
+      simp only [wfDefault, hd, ha, Option.isNone_none, Bool.true_and] at hdflt
+      cases hdom : dom with
+      | none => rw [hdom] at hdflt; simp at hdflt
+      | some kc =>
+        obtain ⟨k, ch⟩ := kc
+        rw [hdom] at hdflt
+        simp only at hdflt
+        obtain ⟨hsyn, hevl⟩ := lit_const hdflt
+        have hqq := hq k ch hdom
+        obtain ⟨d, hdv⟩ := docValue_ok hdflt
+        rw [hdv] at hevl
+        refine ⟨_, ⟨n, el, some d⟩, by simp only [genField, hcond, Bool.false_eq_true, if_false, hth, htyd]; rfl, ?_, ?_, ?_, ?_⟩
+        · simp [FieldDecl.syntaxOk, toDef, hn, orEmpty, hidn, hsynT, hidH, hd, hqq, hsyn]
+        · simp [evalField, hev, toDef, hn, orEmpty, hd, hqq, hevl]
+        · simp [evalHint, hhint]
+        · rw [hdom] at hdoc
+          simp [denoteResolved, hdoc, hn, ha, hd, hdv]
+  | some a =>
+    have hne : (a == cp "double") = false := by
+      rw [ha] at harr
+      simpa using harr
+    have htyd : fieldTyExpr (toDef f) tn = (.array ex (.cls (countCls f.endian)), 1) := by
+      have h1 : (toDef f).array = some a := ha
+      have h2 : (toDef f).endian = f.endian := rfl
+      simp only [fieldTyExpr, h1, h2, hex, hne, Bool.false_eq_true, if_false]
+    have hd : f.dflt = none := by
+      cases hd : f.dflt with
+      | none => rfl
+      | some v => simp [wfDefault, hd, ha] at hdflt
+    have hevA : evalTy env (.array ex (.cls (countCls f.endian))) = .ok (.array el (docCount f)) := by
+      rw [evalTy.eq_2, hev, hcnt]
+      cases el <;> first | rfl | exact absurd rfl hel
+    refine ⟨_, ⟨n, .array el (docCount f), none⟩, by simp only [genField, hcond, Bool.false_eq_true, if_false, hth, htyd]; rfl, ?_, ?_, ?_, ?_⟩
+    · simp [FieldDecl.syntaxOk, toDef, hn, orEmpty, hidn, TyExpr.syntaxOk, hsynT, hidH, hd, hcntId]
+    · simp [evalField, hevA, toDef, hn, orEmpty, hd]
+    · simp [evalHint, hhint, henv.list]
     · simp [denoteResolved, hdoc, hn, ha, hd]
-  | some v =>
-    simp only [wfDefault, hd, ha, Option.isNone_none, Bool.true_and] at hdflt
-    obtain ⟨hsyn, hevl⟩ := lit_const hdflt
-    have htt : (PrimKind.text == PrimKind.text) = true := by decide
-    rw [htt] at hsyn hevl
-    have hdv : docValue .text v = .ok (.str v) := rfl
-    rw [hdv] at hevl
-    refine ⟨_, ⟨n, .fixed iso (some m), some (.str v)⟩, by simp only [genField, hcond, Bool.false_eq_true, if_false, hth, htyd]; rfl, ?_, ?_, ?_, ?_⟩
-    · simp [FieldDecl.syntaxOk, toDef, hn, orEmpty, hidn, TyExpr.syntaxOk, fixedCls_ident, lenOk, hlit.1, hd, hq, hsyn]; decide
-    · simp [evalField, hev, toDef, hn, orEmpty, hd, hq, hevl]
-    · simp [evalHint, hhint]
-    · simp [denoteResolved, hdoc, hn, ha, hd, hdv]
+
+theorem elemExpr_plain {f : FieldEl} {tn : Str}
+    (hnf : (f.ty == some (fixedId false) || f.ty == some (fixedId true)) = false) : elemExpr (toDef f) tn = .cls tn := by
+  have : (toDef f).ty = f.ty := rfl
+  simp only [elemExpr, this, hnf, Bool.false_eq_true, if_false]
 
 /-! ### every well-formed field -/
 theorem field_ok {impl : Impl} {s : Spec} {seen : List Str} {env : Env} {f0 : FieldEl}
@@ -1008,30 +941,67 @@ theorem field_ok {impl : Impl} {s : Spec} {seen : List Str} {env : Env} {f0 : Fi
         have sh := wfType_shape hwt
         cases sh with
         | prim p k ht hsc =>
-          refine agree_nonfixed (tn := p.cls) (hint := p.kind.hint) (el := .prim p) henv hn hname href' harr hty
-            (by simp [ht]) ?_ ?_ (evalTy_cls_prim henv p) (Or.inl ⟨p, rfl⟩) (prim_cls_ident p) (hint_ident _)
+          have hnf : (f.ty == some (fixedId false) || f.ty == some (fixedId true)) = false := by
+            rw [ht, prim_not_fixed, prim_not_fixed]; rfl
+          refine agree_elem (tn := p.cls) (hint := p.kind.hint) (ex := .cls p.cls) (el := .prim p) henv hn hname href' harr hty
+            (by simp [ht]) ?_ (elemExpr_plain hnf) (evalTy_cls_prim henv p) (by simp) (prim_cls_ident p) (hint_ident _)
             ⟨_, henv.hint _⟩ ?_ ?_
           · simp only [typeAndHint, toDef, href', ht, prim_not_enum, prim_not_record, Bool.false_eq_true, if_false,
               typeDef_prim]
             rfl
-          · rw [ht, prim_not_fixed, prim_not_fixed]; rfl
           · simp [docElemTy, ht, hsc, docPrim_id]
           · intro k ch hk
             simp only [Option.some.injEq, Prod.mk.injEq] at hk
             rw [← hk.1]; exact quote_prim p
-        | fixed iso k len m ht hsc hnp hdf hl hm ha =>
-          exact agree_fixed henv hn hname href' hty ht hsc hnp hdf hl hm ha
+        | fixed iso k len m ht hsc hnp hdf hl hm =>
+          have hlit : isNatLit len = true ∧ digitsVal len = m := by
+            unfold parseNat? at hm
+            split at hm
+            · rename_i h; exact ⟨h, by simpa using hm⟩
+            · cases hm
+          have hlenNone : (len == cp "None") = false := by
+            rw [beq_eq_false_iff_ne]
+            intro e
+            rw [e, none_not_lit] at hlit
+            exact absurd hlit.1 (by simp)
+          have hex : elemExpr (toDef f) (fixedCls iso) = .callLen (.cls (fixedCls iso)) len := by
+            have h1 : (toDef f).ty = some (fixedId iso) := ht
+            have h2 : (toDef f).length = some len := hl
+            simp only [elemExpr, h1, h2, fixed_is_fixed, if_true, orNone]
+          have hev : evalTy env (.callLen (.cls (fixedCls iso)) len) = .ok (.fixed iso (some m)) := by
+            have h1 : evalTy env (.cls (fixedCls iso)) = .ok (.fixedCls iso) := by simp [evalTy, henv.fixed iso]
+            have h2 : evalLen len = .ok (some m) := by simp [evalLen, hlenNone, hlit.1, hlit.2]
+            rw [evalTy.eq_3, h1, h2]
+            rfl
+          have hq : quoteOf (.callLen (.cls (fixedCls iso)) len) = true := by
+            unfold quoteOf
+            have : isInfix (cp "String") (TyExpr.callLen (.cls (fixedCls iso)) len).render = true := by
+              simp only [TyExpr.render]
+              exact isInfix_append _ _ _ (isInfix_append _ _ _ (isInfix_append _ _ _ (fixedCls_string iso)))
+            rw [this, Bool.or_true]
+          refine agree_elem (tn := fixedCls iso) (hint := cp "str") (ex := .callLen (.cls (fixedCls iso)) len)
+            (el := .fixed iso (some m)) henv hn hname href' harr hty (by simp [ht]) ?_ hex hev (by simp) ?_ (by decide)
+            ⟨_, henv.hint .text⟩ ?_ ?_
+          · simp only [typeAndHint, toDef, href', ht, fixed_not_enum, fixed_not_record, Bool.false_eq_true, if_false,
+              typeDef_fixed]
+            rfl
+          · simp [TyExpr.syntaxOk, fixedCls_ident, lenOk, hlit.1]
+          · simp [docElemTy, ht, hsc, hnp, hdf, hl, hm]
+          · intro k ch hk
+            simp only [Option.some.injEq, Prod.mk.injEq] at hk
+            rw [hq, ← hk.1]; rfl
         | enum nm e p ht hsc hid he hp =>
           have hpre : isPrefix kwEnum (kwEnum ++ nm) = true := isPrefix_append _ _
           have hrem : removeAll kwEnum (kwEnum ++ nm) = nm :=
             removeAll_prefix kwEnum nm 58 (by rw [kwEnum_eq]; decide) (isIdent_no_colon hid)
-          refine agree_nonfixed (tn := p.cls) (hint := nm) (el := .prim p) henv hn hname href' harr hty
-            (by simp [ht]) ?_ ?_ (evalTy_cls_prim henv p) (Or.inl ⟨p, rfl⟩) (prim_cls_ident p) hid
+          have hnf : (f.ty == some (fixedId false) || f.ty == some (fixedId true)) = false := by
+            have hh : (kwEnum ++ nm).head? = some 101 := by rw [kwEnum_eq]; rfl
+            rw [ht, kw_not_fixed hh (by decide), kw_not_fixed hh (by decide)]; rfl
+          refine agree_elem (tn := p.cls) (hint := nm) (ex := .cls p.cls) (el := .prim p) henv hn hname href' harr hty
+            (by simp [ht]) ?_ (elemExpr_plain hnf) (evalTy_cls_prim henv p) (by simp) (prim_cls_ident p) hid
             (henv.enums nm (findEnum?_mem he)) ?_ ?_
           · simp only [typeAndHint, toDef, href', ht, hpre, if_true, hrem, dictGet?_enums, he, hp, typeDef_prim]
             rfl
-          · have hh : (kwEnum ++ nm).head? = some 101 := by rw [kwEnum_eq]; rfl
-            rw [ht, kw_not_fixed hh (by decide), kw_not_fixed hh (by decide)]; rfl
           · simp [docElemTy, ht, hsc, he, hp, docPrim_id]
           · intro k ch hk
             simp only [Option.some.injEq, Prod.mk.injEq] at hk
@@ -1044,12 +1014,13 @@ theorem field_ok {impl : Impl} {s : Spec} {seen : List Str} {env : Env} {f0 : Fi
           obtain ⟨r, hr'⟩ := hseen nm hs
           have hrn := findRecord?_name hr'
           have hget := henv.recs nm hs
-          refine agree_nonfixed (tn := nm) (hint := nm) (el := .record nm) henv hn hname href' harr hty
-            (by simp [ht]) ?_ ?_ (by simp [evalTy, hget]) (Or.inr ⟨nm, rfl⟩) hid hid ⟨_, hget⟩ ?_ ?_
+          have hnf : (f.ty == some (fixedId false) || f.ty == some (fixedId true)) = false := by
+            have hh : (kwRecord ++ nm).head? = some 114 := by rw [kwRecord_eq]; rfl
+            rw [ht, kw_not_fixed hh (by decide), kw_not_fixed hh (by decide)]; rfl
+          refine agree_elem (tn := nm) (hint := nm) (ex := .cls nm) (el := .record nm) henv hn hname href' harr hty
+            (by simp [ht]) ?_ (elemExpr_plain hnf) (by simp [evalTy, hget]) (by simp) hid hid ⟨_, hget⟩ ?_ ?_
           · simp only [typeAndHint, toDef, href', ht, hpre0, hpre, Bool.false_eq_true, if_false, if_true, hrem,
               dictGet?_records, hr', Option.map_some, recDef, hrn]
-          · have hh : (kwRecord ++ nm).head? = some 114 := by rw [kwRecord_eq]; rfl
-            rw [ht, kw_not_fixed hh (by decide), kw_not_fixed hh (by decide)]; rfl
           · have : (cp "record" == cp "enum") = false := by decide
             simp [docElemTy, ht, hsc, this, hr', hrn]
           · intro k ch hk; cases hk
@@ -1104,21 +1075,6 @@ theorem body_ok {impl : Impl} {s : Spec} {seen : List Str} {env : Env} {fs : Lis
   · exact mapE_ok _ _ fs (fun a ha => (key a ha).2.2.2.2)
 
 /-! ### enums -/
-theorem docValue_ok {k : PrimKind} {ch : Bool} {v : Str} (h : wfConst k ch v = true) : ∃ d, docValue k v = .ok d := by
-  cases k with
-  | bool => simp [wfConst] at h
-  | text => exact ⟨_, rfl⟩
-  | int =>
-    simp only [wfConst] at h
-    have : ∃ i, parseInt? v = some i := by
-      unfold isIntLit at h
-      unfold parseInt?
-      split at h
-      · simp [parseNat?, h]
-      · simp [parseNat?, h]
-    obtain ⟨i, hi⟩ := this
-    exact ⟨.int i, by simp [docValue, hi]⟩
-
 theorem wfMemberName_ident {n : Str} (h : wfMemberName n = true) : isIdent n = true := by
   simp only [wfMemberName, Bool.and_eq_true] at h
   exact h.1.1
@@ -1136,11 +1092,11 @@ theorem enum_ok {e : EnumEl} (hw : wfEnum e = true) (hid : isIdent e.name = true
     simp only [Bool.and_eq_true, List.all_eq_true, Bool.not_eq_true'] at hw
     obtain ⟨⟨⟨_, hne⟩, hvals⟩, hdup⟩ := hw
     have hty := bind_docPrim hp
-    have hgen : genEnum e = .ok ⟨e.name, e.values.map fun v => (v.name, ⟨p.kind == .text, htmlEscape v.value⟩)⟩ := by
+    have hgen : genEnum e = .ok ⟨e.name, e.values.map fun v => (v.name, ⟨p.kind == .text, if (p.kind == .text) = true then pyStrBody v.value else v.value⟩)⟩ := by
       simp only [genEnum, hty, typeDef_prim, ok_bind, pure_eq_ok, TypeEntry.hint, hint_str]
     let val := fun (v : EnumVal) => (v.name, getOk (docValue p.kind) v.value)
-    have hmem : ∀ v ∈ e.values, (⟨p.kind == .text, htmlEscape v.value⟩ : Lit).syntaxOk = true
-        ∧ (⟨p.kind == .text, htmlEscape v.value⟩ : Lit).eval = .ok (getOk (docValue p.kind) v.value)
+    have hmem : ∀ v ∈ e.values, (⟨p.kind == .text, if (p.kind == .text) = true then pyStrBody v.value else v.value⟩ : Lit).syntaxOk = true
+        ∧ (⟨p.kind == .text, if (p.kind == .text) = true then pyStrBody v.value else v.value⟩ : Lit).eval = .ok (getOk (docValue p.kind) v.value)
         ∧ docValue p.kind v.value = .ok (getOk (docValue p.kind) v.value) := by
       intro v hv
       have hc := (hvals v hv).2
@@ -1157,12 +1113,12 @@ theorem enum_ok {e : EnumEl} (hw : wfEnum e = true) (hid : isIdent e.name = true
     · intro env henv
       have hm : mapE (fun (kv : Str × Lit) => do
             let v ← kv.2.eval
-            pure (kv.1, v)) (e.values.map fun v => (v.name, (⟨p.kind == .text, htmlEscape v.value⟩ : Lit)))
+            pure (kv.1, v)) (e.values.map fun v => (v.name, (⟨p.kind == .text, if (p.kind == .text) = true then pyStrBody v.value else v.value⟩ : Lit)))
           = .ok (e.values.map val) := by
         apply mapE_map_ok
         intro v hv
         simp only [(hmem v hv).2.1, ok_bind, pure_eq_ok, val]
-      have hd : hasDup ((e.values.map fun v => (v.name, (⟨p.kind == .text, htmlEscape v.value⟩ : Lit))).map (·.1)) = false := by
+      have hd : hasDup ((e.values.map fun v => (v.name, (⟨p.kind == .text, if (p.kind == .text) = true then pyStrBody v.value else v.value⟩ : Lit))).map (·.1)) = false := by
         simpa [List.map_map, Function.comp_def] using hdup
       unfold evalEnum
       rw [henv]
@@ -1285,9 +1241,17 @@ def msgSem (impl : Impl) (s : Spec) (g : MessageEl) : MsgS :=
   ⟨g.name, msgIdVal g, if impl = .itch then none else some (orEmpty g.direction), g.fields.map (fieldSem s)⟩
 
 theorem direction_facts {d : Option Str} (h : (d == some (cp "incoming") || d == some (cp "outgoing")) = true) :
-    htmlEscape (orEmpty d) = orEmpty d ∧ quotedOk (orEmpty d) = true ∧ d = some (orEmpty d) := by
+    htmlEscape (orEmpty d) = orEmpty d ∧ unquote (orEmpty d) = .ok (orEmpty d) ∧ d = some (orEmpty d) := by
   simp only [Bool.or_eq_true, beq_iff_eq] at h
-  rcases h with rfl | rfl <;> exact ⟨by decide, by decide, rfl⟩
+  rcases h with rfl | rfl
+  · refine ⟨by decide, ?_, rfl⟩
+    have h1 : pyStrBody (cp "incoming") = cp "incoming" := by decide
+    have h2 := unquote_pyStrBody (v := cp "incoming") (by decide)
+    rw [h1] at h2; exact h2
+  · refine ⟨by decide, ?_, rfl⟩
+    have h1 : pyStrBody (cp "outgoing") = cp "outgoing" := by decide
+    have h2 := unquote_pyStrBody (v := cp "outgoing") (by decide)
+    rw [h1] at h2; exact h2
 
 theorem message_facts {s : Spec} {g : MessageEl} (hw : wfMessage s g = true) :
     isNatLit (msgIdText g) = true ∧ digitsVal (msgIdText g) = msgIdVal g ∧ denoteMsgId g.msgId = .ok (msgIdVal g) := by
